@@ -223,7 +223,13 @@ static str apply(String & s, const std::vector<str> & a, bool allowAlias, String
    if (c == "wrc") {prod = new String(s.WithReplacements(CH(1), CH(2), U(a[3]), U(a[4]))); return "r";}
    if (c == "wrs") {SA(1); SA(2); prod = new String(s.WithReplacements(S1, S2, U(a[3]), U(a[4]))); return "r";}
    if (c == "args"){SA(1); prod = new String(s.Arg(S1)); if (*prod != s.Arg(S1())) complaint = "Arg(String) != Arg(cstr)"; return "r";}
-   if (c == "argi"){prod = new String(s.Arg(atoi(a[1].c_str()))); return "r";}
+   if (c == "argi"){prod = new String(s.Arg(atoi(a[1].c_str()))); if (*prod != s.Arg((long) atoi(a[1].c_str()))) complaint = "Arg(int) != Arg(long)"; return "r";}
+   if (c == "argl"){prod = new String(s.Arg((long long) strtoll(a[1].c_str(), NULL, 10))); return "r";}
+   if (c == "argul"){prod = new String(s.Arg((unsigned long long) strtoull(a[1].c_str(), NULL, 10))); if (*prod != s.Arg((unsigned long) strtoull(a[1].c_str(), NULL, 10))) complaint = "Arg(unsigned long long) != Arg(unsigned long)"; return "r";}
+   if (c == "argu"){prod = new String(s.Arg((unsigned int) strtoul(a[1].c_str(), NULL, 10))); return "r";}
+   if (c == "argh"){prod = new String(s.Arg((short) atoi(a[1].c_str()))); if ((atoi(a[1].c_str()) >= 0)&&(*prod != s.Arg((unsigned short) atoi(a[1].c_str())))) complaint = "Arg(short) != Arg(unsigned short)"; return "r";}
+   if (c == "argc"){prod = new String(s.Arg((char) atoi(a[1].c_str()))); if ((atoi(a[1].c_str()) >= 0)&&(*prod != s.Arg((unsigned char) atoi(a[1].c_str())))) complaint = "Arg(char) != Arg(unsigned char)"; return "r";}
+   if (c == "argb"){prod = new String(s.Arg(a[1] == "1")); return "r";}
    if (c == "wsf") {SA(1); prod = new String(s.WithSuffix(S1)); return "r";}
    if (c == "wpf") {SA(1); prod = new String(s.WithPrefix(S1)); return "r";}
    if (c == "wosf"){SA(1); prod = new String(s.WithoutSuffix(S1, U(a[2]))); return "r";}
@@ -435,7 +441,9 @@ static str ref_apply(str & s, const std::vector<str> & a, bool & hasProd, str & 
    if (c == "wrc") {prod = s; uint32 max = U(a[3]); if (RH(1) != RH(2)) for (size_t i=U(a[4]); (i<prod.size())&&(max>0); i++) if (prod[i] == RH(1)) {prod[i] = RH(2); max--;} return "r";}
    if (c == "wrs") {long long cnt; prod = repl(s, RS(1), RS(2), U(a[3]), U(a[4]), cnt); return "r";}
    if (c == "args"){prod = argsub(s, RS(1)); return "r";}
-   if (c == "argi"){prod = argsub(s, num(atoi(a[1].c_str()))); return "r";}
+   if ((c == "argi")||(c == "argl")||(c == "argh")||(c == "argc")) {prod = argsub(s, num(strtoll(a[1].c_str(), NULL, 10))); return "r";}
+   if ((c == "argu")||(c == "argul")) {std::ostringstream os; os << strtoull(a[1].c_str(), NULL, 10); prod = argsub(s, os.str()); return "r";}
+   if (c == "argb"){prod = argsub(s, (a[1] == "1") ? "true" : "false"); return "r";}
    if (c == "wsf") {prod = ends(s, RS(1)) ? s : (s+RS(1)); return "r";}
    if (c == "wpf") {prod = starts(s, RS(1)) ? s : (RS(1)+s); return "r";}
    if (c == "wosf"){prod = s; const str x = RS(1); uint32 max = U(a[2]); if (!x.empty()) while((max > 0)&&(ends(prod, x))) {prod.erase(prod.size()-x.size()); max--;} return "r";}
@@ -528,6 +536,8 @@ static void make_twin(String & t, const String & s)
 static str shape_complaint(const String & s)
 {
    if (s.Cstr()[s.Length()] != '\0') return "not NUL-terminated at Length()";
+   if ((s.IsEmpty() != (s.Length() == 0))||(s.HasChars() != (s.Length() > 0))||(s.GetLastValidIndex() != ((int32)s.Length())-1)||(s.FlattenedSize() != s.Length()+1)
+     ||(s.IsIndexValid(s.Length()))||((s.Length() > 0)&&(!s.IsIndexValid(s.Length()-1)))||(s() != s.Cstr())) return "IsEmpty/HasChars/GetLastValidIndex/IsIndexValid/FlattenedSize/operator() disagree with Length()/Cstr()";
    if (s.Length() >= s.GetNumAllocatedBytes()) return "Length() >= GetNumAllocatedBytes()";
    if ((!s.IsArrayDynamicallyAllocated())&&(s.Length() > String::GetMaxShortStringLength())) return "small-buffer mode with Length() above its capacity";
    return str();
@@ -577,6 +587,8 @@ static void run_case(int k, const str & body, bool nulStream)
             else if ((prod != NULL) != (twinProd != NULL)) why = "twin: produced";
             else if ((prod)&&(!assign)&&(content_of(*prod) != content_of(*twinProd))) why = "twin: produced String differs";
             else if (content_of(*s) != content_of(*twin)) why = "twin: contents differ afterwards";
+            else if ((s->HashCode() != twin->HashCode())||(s->HashCode64() != twin->HashCode64())||(s->CalculateChecksum() != twin->CalculateChecksum())) why = "twin: HashCode/HashCode64/CalculateChecksum depend on the storage mode";
+            else if ((!(*s == *twin))||(*s != *twin)||(s->CompareTo(*twin) != 0)||(!s->EqualsIgnoreCase(*twin))) why = "twin: equal contents do not compare equal across storage modes";
          }
          if ((why.empty())&&(!nulStream))
          {
